@@ -1461,7 +1461,8 @@ class NumpyDocstring(GoogleDocstring):
         # The computed speed of the fox
 
         _type = self._convert_type_and_maybe_consume_free_form_field(
-            _name, _type, allow_free_form=allow_free_form
+            _name, _type, allow_free_form=allow_free_form,
+            free_form_line=self._escape_args_and_kwargs(line.strip()),
         )  # Can raise FreeFormException
         return Field(name=_name, 
                      type=_type, 
@@ -1521,7 +1522,8 @@ class NumpyDocstring(GoogleDocstring):
         return False
 
     def _convert_type_and_maybe_consume_free_form_field(
-        self, _name: str, _type: str, allow_free_form: bool = False
+        self, _name: str, _type: str, allow_free_form: bool = False,
+        free_form_line: Optional[str] = None,
     ) -> str:
         """
         Same as `_convert_type`, but can raise `FreeFormException`.
@@ -1535,7 +1537,10 @@ class NumpyDocstring(GoogleDocstring):
         else:
             # Else we consider it as free form
             _desc = self.__class__(self._consume_to_next_section()).lines()
-            raise FreeFormException(lines=[_name + _type] + _desc)
+            # The first line as it was written: joining the two halves of a line that
+            # contains a colon would drop the colon and merge two words.
+            first = free_form_line if free_form_line is not None else _name + _type
+            raise FreeFormException(lines=[first] + _desc)
 
     def _parse_see_also_section(self, section: str) -> List[str]:
         lines = self._consume_to_next_section()
